@@ -27,7 +27,7 @@ def demo(wt, path):
 
 
 def check(wt, prop):
-    r = subprocess.run(['/verif/checks/run', prop], env=dict(os.environ, VERIF_REPO=wt), capture_output=True, text=True)
+    r = subprocess.run([os.environ.get('VERIF_ROOT', '/verif') + '/checks/run', prop], env=dict(os.environ, VERIF_REPO=wt), capture_output=True, text=True)
     lines = [l for l in r.stdout.split('\n') if l.startswith('VIOLATION')]
     return r.returncode, len(lines), sum(1 for l in lines if l.endswith('no-failing-input-found')), r.stdout.strip().split('\n')[-1]
 
